@@ -102,7 +102,11 @@ class Ctx:
                 print("      note: " + nt)
             for u in r.undecided:
                 print("      undecided: " + u)
+        printed = set()
         for v, k in listed:
+            if v.key in printed:   # the same listed finding reached through two engines (e.g. rustc and the static name check)
+                continue
+            printed.add(v.key)
             print("KNOWN-FINDING: property=%s %s — %s [%s]" % (self.prop, v.key, k.get("what_fails", v.what), v.loc or ""))
         outdir = os.path.join(VERIF, "out", self.prop)
         if unlisted:
@@ -153,8 +157,10 @@ class Ctx:
             "wall_s": round(time.time() - self.t0, 2),
             "violations": nviol,
         }
-        os.makedirs(os.path.join(VERIF, "evidence"), exist_ok=True)
-        with open(os.path.join(VERIF, "evidence", self.prop + ".json"), "w") as fh:
+        # self-tests point PT_REPO at a scratch tree: their evidence must not overwrite the evidence about /repo
+        evdir = os.path.join(VERIF, "evidence") if os.environ.get("PT_REPO", "/repo") == "/repo" else os.path.join(VERIF, ".work", "evidence-scratch")
+        os.makedirs(evdir, exist_ok=True)
+        with open(os.path.join(evdir, self.prop + ".json"), "w") as fh:
             json.dump(ev, fh, indent=1, default=str)
 
 
